@@ -61,10 +61,19 @@ theorem C14_fails_zero_after_timeouts (c : Cfg) (n : Nat) (s : State) (hr : Reac
     (ht : getN s.timers h = 0) : getI s.fails h = 0 := by
   rw [C14_fails_exact c n s hr h, ht]; rfl
 
-/-- A backend is treated as down exactly while it is marked unhealthy or has at least max_fails
+/-- A pass of the health-check worker writes the health flags and nothing else: the in-flight and the
+failure counters (and the pending expiries) of every backend are what they were. -/
+theorem C14_health_check_touches_only_flags (c : Cfg) (s s' : State) (flags : List Bool)
+    (h : step c s (.health flags) = some s') :
+    s'.unhealthy = flags ∧ s'.conns = s.conns ∧ s'.fails = s.fails ∧ s'.timers = s.timers ∧ s'.pcs = s.pcs := by
+  simp only [step, Option.some.injEq] at h
+  subst h
+  exact ⟨rfl, rfl, rfl, rfl, rfl⟩
+
+/-- A backend is treated as down exactly while it is marked unhealthy (by the last health-check pass) or has at least max_fails
 unexpired failures. -/
 theorem C14_down_iff (c : Cfg) (n : Nat) (s : State) (hr : Reachable c n s) (h : Nat) :
-    down c s h = (c.unhealthy.getD h false || decide (getN s.timers h ≥ c.maxFails)) := by
+    down c s h = (s.unhealthy.getD h false || decide (getN s.timers h ≥ c.maxFails)) := by
   unfold down
   rw [C14_fails_exact c n s hr h]
   congr 1
